@@ -27,7 +27,13 @@ VALUES = ['v', '5', '-3', 'a/b', '1.0', 'utf-16', 'dos', '0', '-0', '007',
           'json', 'binary', '/x', '-', '9999999999999999999999', 'unix',
           'text/plain', '1_0', '2024_01_15', '-4_2', '1e5', '1.2.3', '0x10',
           'inf', 'nan', '00', '-', '--5', '5-', '1.', '.5', 'True', 'None',
-          'change', '9' * 5000, 'v' * 70000]
+          'change', '9' * 5000, 'v' * 70000,
+          # path-, ref- and hash-shaped values
+          '..', '../trunk', 'src/../lib', 'a/..', './a', '.', '...', 'a//b',
+          '/', 'a/', 'refs/heads/main', 'HEAD', 'file.tar.gz', '0100644',
+          'deadbeef', '2024-01-15', 'a..b', '__', '-/-']
+VALUE_ALPHA = ['.', '/', '-', '_', 'a', '1']
+KEY_ALPHA = ['a', 'Z', '1', '-', '_']
 INT = re.compile(r'-?[0-9]+')
 
 # key names real producers use (VCS vocabulary, identifiers, counters): a
@@ -192,6 +198,10 @@ def plan(tier):
                 units.append(('pair', fi, hi))
     units.append(('real-keys', 0, 0))
     units.append(('real-keys', 3, 0))
+    for a in range(len(VALUE_ALPHA)):
+        units.append(('value-strings', 0, a))
+    for a in (0, 1):
+        units.append(('key-strings', 0, a))
     return {
         'units': units,
         'rule': '%d well-formed files (generated: plain, long content, '
@@ -200,7 +210,10 @@ def plan(tier):
                 'unknown keys (incl. look-alikes of known ones: Length, '
                 'ENCODING, lengthx, xlength, line-endings, ...) x %d values '
                 '(plain, ints, negative, leading zeros, a/b, codec and '
-                'line-ending names) x every insertion position%s. Oracle: '
+                'line-ending names, path / ref / hash shapes) x every '
+                'insertion position%s; every value over {. / - _ a 1} and '
+                'every key over {a Z 1 - _} of length <= 4 (thorough 5) on '
+                'the first and on a content header. Oracle: '
                 'records of the extended file == records of the original '
                 'with exactly {key: value-as-int-if-integer} added to the '
                 'touched record. Non-trivial: insertion at position 0 or on '
@@ -273,6 +286,30 @@ def run_unit(unit, tier):
                     'example': repr(insert(data, spans[hi], 0, 'Length',
                                            '-3')[spans[hi][0]:
                                                  spans[hi][1] + 12])}, 1)
+    elif kind == 'value-strings':
+        # every value over {. / - _ a 1} of length <= 4 (thorough 5)
+        # starting with VALUE_ALPHA[hi], on the first and on a content header
+        L = 4 if tier == 'quick' else 5
+        hs = [0] + [h for h in range(len(spans))
+                    if 'length' in ref[h]['options']][:1]
+        for n in range(0, L):
+            for t in itertools.product(VALUE_ALPHA, repeat=n):
+                value = VALUE_ALPHA[hi] + ''.join(t)
+                for h in hs:
+                    one([(h, 0, 'x', value)], True)
+                    one([(h, len(spans[h][3]), 'rel-path', value)], True)
+        acc.sample({'values_over': VALUE_ALPHA, 'max_length': L}, 1)
+    elif kind == 'key-strings':
+        L = 4 if tier == 'quick' else 5
+        hs = [0] + [h for h in range(len(spans))
+                    if 'length' in ref[h]['options']][:1]
+        for n in range(0, L):
+            for t in itertools.product(KEY_ALPHA, repeat=n):
+                key = KEY_ALPHA[hi] + ''.join(t)
+                for h in hs:
+                    one([(h, 0, key, 'v')], True)
+                    one([(h, len(spans[h][3]), key, '7')], True)
+        acc.sample({'keys_over': KEY_ALPHA, 'max_length': L}, 1)
     elif kind == 'real-keys':
         for key in REAL_KEYS:
             for value in REAL_VALUES:
